@@ -55,6 +55,12 @@ def explain(path):
                 out.append("%2d: pool[%d].interpolate(); .interpolate(d3_interpolate); .rangeRound([0, 1])" % (i, op[1]))
             elif k == "copy":
                 out.append("%2d: pool.append(pool[%d].copy())" % (i, op[1]))
+            elif k == "deepcopy":
+                out.append("%2d: pool.append(copy.deepcopy(pool[%d]))" % (i, op[1]))
+            elif k == "copy_chain":
+                out.append("%2d: pool[%d] = pool[%d].copy().copy()... (%d generations)" % (i, op[1], op[1], op[2]))
+            elif k == "nudge":
+                out.append("%2d: pool[%d].domain(<its domain with end %d moved by a factor 1%+g>)" % (i, op[1], op[2] % 2, op[3]))
             elif k == "drop":
                 out.append("%2d: del pool[%d]" % (i, op[1]))
             elif k in ("bad_nice", "bad_domain"):
